@@ -17,6 +17,7 @@ import (
 
 	"github.com/cube2222/octosql/config"
 	"github.com/cube2222/octosql/plugins/repository"
+	"github.com/cube2222/octosql/verifhook"
 )
 
 type PluginManager struct {
@@ -194,6 +195,7 @@ func (m *PluginManager) Install(ctx context.Context, name string, constraint *se
 	pluginDir := filepath.Join(getPluginDir(), repoSlug, fmt.Sprintf("octosql-plugin-%s", name))
 	newPluginDir := filepath.Join(pluginDir, version.Number.String())
 
+	verifhook.Crash("install:start")
 	if err := os.MkdirAll(pluginDir, os.ModePerm); err != nil {
 		return fmt.Errorf("couldn't create plugins directory: %w", err)
 	}
@@ -211,6 +213,7 @@ func (m *PluginManager) Install(ctx context.Context, name string, constraint *se
 		return fmt.Errorf("couldn't create plugin staging directory: %w", err)
 	}
 	defer os.RemoveAll(stagingDir)
+	verifhook.Crash("install:staging-created")
 	archiveFilePath := filepath.Join(stagingDir, "archive.tar.gz")
 
 	// Anonymous function to take care of defers before we move forward.
@@ -232,9 +235,12 @@ func (m *PluginManager) Install(ctx context.Context, name string, constraint *se
 		}
 		defer f.Close()
 
+		verifhook.Crash("install:archive-created")
 		if _, err := io.Copy(f, res.Body); err != nil {
 			return fmt.Errorf("couldn't download plugin archive: %w", err)
 		}
+		verifhook.CrashTruncating("install:archive-partial", stagingDir)
+		verifhook.Crash("install:archive-downloaded")
 		return nil
 	}()
 	if err != nil {
@@ -244,10 +250,13 @@ func (m *PluginManager) Install(ctx context.Context, name string, constraint *se
 	if err := archiver.NewTarGz().Unarchive(archiveFilePath, stagingDir); err != nil {
 		return fmt.Errorf("couldn't unarchive plugin archive: %w", err)
 	}
+	verifhook.CrashTruncating("install:unarchive-partial", stagingDir)
+	verifhook.Crash("install:unarchived")
 
 	if err := os.Remove(archiveFilePath); err != nil {
 		return fmt.Errorf("couldn't remove plugin archive: %w", err)
 	}
+	verifhook.Crash("install:archive-removed")
 
 	if err := os.Chmod(stagingDir, 0755); err != nil {
 		return fmt.Errorf("couldn't set plugin directory permissions: %w", err)
@@ -256,14 +265,17 @@ func (m *PluginManager) Install(ctx context.Context, name string, constraint *se
 	if err := os.RemoveAll(newPluginDir); err != nil {
 		return fmt.Errorf("couldn't remove old plugin directory: %w", err)
 	}
+	verifhook.Crash("install:old-version-removed")
 
 	if err := os.Rename(stagingDir, newPluginDir); err != nil {
 		return fmt.Errorf("couldn't move plugin into place: %w", err)
 	}
+	verifhook.Crash("install:moved-into-place")
 
 	if err := registerFileExtensions(plugin.Name, plugin.FileExtensions); err != nil {
 		return fmt.Errorf("couldn't register file extensions: %w", err)
 	}
+	verifhook.Crash("install:done")
 
 	return nil
 }
